@@ -156,7 +156,7 @@ def backend_runs(r, quick):
 
 
 def run():
-    chk = Check("C01")
+    chk = Check("C01", props_modules=["GFO.Props.C01", "GFO.Props.LocalRuns"])
     chk.build_and_audit()
     r = C.rng("C01")
     quick = C.tier() != "thorough"
@@ -172,5 +172,7 @@ def run():
         chk.monitor("C01 statement on real runs of all 22 optimizers (positions, objective and constraint arguments, nan audit)", n, fails, keys)
     chk.assumptions.append("float expressions feeding the kernels (simplex reflection, PSO velocity, spiral rotation, DE mutant, pattern offsets) are oracle inputs; "
                            "NoNan on them is audited on every recorded conv2pos call")
+    from . import localgen
+    localgen.add_to(chk, C.rng("C01-local"), 8 if C.tier() != "thorough" else 80, constraint_p=0.3)
     scen.shutdown_manager()
     return chk.finish()
